@@ -1095,6 +1095,21 @@ class Inliner:
                     if len({k.arg for k in new_kws if k.arg}) == len([k for k in new_kws if k.arg]):
                         n.keywords = new_kws
                         count[0] += 1
+                # pathlib spellings of file access (what pathlib itself does):  p.open("w", ...) -> open(p, "w", ...);  p.read_text(encoding=e) -> open(p, "r", encoding=e).read()
+                if isinstance(f, ast.Attribute) and f.attr == "open" and isinstance(f.value, (ast.Name, ast.Attribute)) and not any(isinstance(x, ast.Starred) for x in n.args) \
+                        and all(k.arg in ("mode", "encoding", "errors", "newline", "buffering") for k in n.keywords) and (n.args or n.keywords) \
+                        and (not n.args or (isinstance(n.args[0], ast.Constant) and isinstance(n.args[0].value, str) and set(n.args[0].value) <= set("rwxabt+"))) \
+                        and sc.resolve(f.value) is None:
+                    mode = n.args[0] if n.args else next((k.value for k in n.keywords if k.arg == "mode"), ast.Constant(value="r"))
+                    rest = [k for k in n.keywords if k.arg != "mode"]
+                    count[0] += 1
+                    return self.visit(at(ast.Call(func=ast.Name(id="open", ctx=ast.Load()), args=[f.value, mode] + list(n.args[1:]), keywords=rest), n))
+                if isinstance(f, ast.Attribute) and f.attr in ("read_text", "read_bytes") and isinstance(f.value, (ast.Name, ast.Attribute)) and not n.args \
+                        and all(k.arg in ("encoding", "errors") for k in n.keywords) and sc.resolve(f.value) is None:
+                    count[0] += 1
+                    mode = "r" if f.attr == "read_text" else "rb"
+                    opened = ast.Call(func=ast.Name(id="open", ctx=ast.Load()), args=[f.value, ast.Constant(value=mode)], keywords=list(n.keywords))
+                    return self.visit(at(ast.Call(func=ast.Attribute(value=opened, attr="read", ctx=ast.Load()), args=[], keywords=[]), n))
                 # open(file=p, mode="w", ...)  ->  open(p, "w", ...)
                 if isinstance(f, ast.Name) and f.id == "open" and not n.args and n.keywords and n.keywords[0].arg == "file" and sc.resolve(f) == "builtins.open":
                     n.args.append(n.keywords.pop(0).value)
